@@ -27,8 +27,8 @@ func VerifH_C14_icmpJSON() {
 	if len(kvs) != 4 {
 		return
 	}
-	verifAssert(kvs[0].key == "scan" && kvs[0].isStr && c14SameBytes(kvs[0].str, []byte(r.ScanType)), "scan type does not decode back")
-	verifAssert(kvs[1].key == "ip" && kvs[1].isStr && c14SameBytes(kvs[1].str, []byte(r.IP)), "ip does not decode back")
+	verifAssert(kvs[0].key == "scan" && kvs[0].isStr && c14SameBytes(kvs[0].str, c14Expect([]byte(r.ScanType))), "scan type does not decode back")
+	verifAssert(kvs[1].key == "ip" && kvs[1].isStr && c14SameBytes(kvs[1].str, c14Expect([]byte(r.IP))), "ip does not decode back")
 	verifAssert(kvs[2].key == "ttl" && !kvs[2].isStr && c14SameBytes(kvs[2].raw, []byte(strconv.Itoa(int(r.TTL)))), "ttl does not decode back")
 	verifAssert(kvs[3].key == "icmp" && !kvs[3].isStr, "icmp object missing")
 	inner, ok := c14Object(kvs[3].raw)
